@@ -120,7 +120,9 @@ def ob_diff(ctx, N, encs, les, types):
     dt = ctx.pick('diff_type', types)
     n = ctx.choose(1, N, 'n')
     content = sym_bytes(ctx, 'd', n)
-    script = prefix_for('...diff', Script('utf-8'))
+    fenc = ctx.pick('file.enc', [None, 'utf-16'])        # the metadata right before the diff may be UTF-16
+    script = Script('utf-8').add('.change', 'new_change').add('..file', 'new_file', **({} if fenc is None else {'encoding': fenc}))
+    script.add('...meta', 'write_meta', {'path': 'f'})
     kw = {}
     if own is not None:
         kw['encoding'] = own
@@ -130,7 +132,7 @@ def ob_diff(ctx, N, encs, les, types):
         kw['diff_type'] = dt
     script.add('...diff', 'write_diff', content, **kw)
     script.add('..file', 'new_file').add('...meta', 'write_meta', {'path': 'g'})
-    wit = lambda m: {'kind': 'diff', 'content': model_bytes(m, content), 'kw': kw}
+    wit = lambda m: {'kind': 'diff', 'content': model_bytes(m, content), 'kw': kw, 'file_enc': fenc}
     recs, data = _write_read(ctx, script, wit)
     if data is None:
         return recs
@@ -316,7 +318,9 @@ def replay(ob, label, w):
             script.add(sid, 'write_preamble', w['text'], **w['kw'])
             suffix_for(sid, script)
         elif kind == 'diff':
-            script = prefix_for('...diff', Script('utf-8'))
+            fe = w.get('file_enc')
+            script = Script('utf-8').add('.change', 'new_change').add('..file', 'new_file', **({} if fe is None else {'encoding': fe}))
+            script.add('...meta', 'write_meta', {'path': 'f'})
             script.add('...diff', 'write_diff', w['content'], **w['kw'])
             script.add('..file', 'new_file').add('...meta', 'write_meta', {'path': 'g'})
         elif kind == 'meta':
